@@ -3484,7 +3484,27 @@ impl GlobalInferenceCtx<'_> {
                                         });
                                     }
 
-                                    let max_ty = output_ty.max_ty.into();
+                                    let max_ty: Intern<Ty> = output_ty.max_ty.into();
+
+                                    // the result of the operation is stored back into `dest`,
+                                    // so it has to fit there (`a_u8 += a_u64` does not), unless `dest`
+                                    // is still weakly typed and simply becomes that type
+                                    if *dest_ty != Ty::Unknown
+                                        && *value_ty != Ty::Unknown
+                                        && !max_ty.can_fit_into(&dest_ty)
+                                        && !dest_ty.is_weak_replaceable_by(&max_ty)
+                                    {
+                                        self.diagnostics.push(TyDiagnostic {
+                                            kind: TyDiagnosticKind::Mismatch {
+                                                expected: ExpectedTy::Concrete(dest_ty),
+                                                found: max_ty,
+                                            },
+                                            file: self.loc.file(),
+                                            expr: Some(assign_body.value),
+                                            range: self.bodies.range_for_expr(assign_body.value),
+                                            help: None,
+                                        });
+                                    }
 
                                     self.replace_weak_tys(assign_body.dest, max_ty);
                                     self.replace_weak_tys(assign_body.value, max_ty);
